@@ -1997,6 +1997,27 @@ theorem C34_keys (env : Env) (amb : Ambient) (s : Site) (r : Record) :
       (∀ k ∈ G.sentinelBase, ((sentinel r).get k).isSome = true) :=
   ⟨emit_keys env amb s, emit_base env amb s, sentinel_keys r, sentinel_base r⟩
 
+/-- **refused continuations are silent**: a continuation, exchange turn or cancel the worker refuses before it resolved the
+call (bad / expired / foreign token, wrong method) dispatches nothing and writes no record — so the log of a program is the
+log of its dispatched requests (`C34_once`), and no stream record without a `stream_id` can come from there -/
+theorem C34_refused_silent (env : Env) (name : Str) (cause : Exn) (status : Nat) :
+    Http.refused env name cause status = [] := by
+  have h : G.refusedEmits = false := rfl
+  simp [Http.refused, h]
+
+/-- … which matters because a record written at that point could not be valid: with no stream id published, a stream record
+fails the schema whatever the environment -/
+theorem refused_record_would_be_invalid (env : Env) (name : Str) (cause : Exn) (status : Nat) (known : Bool) :
+    SchemaOk { emit env (Http.amb env []) (Http.site name .stream { err := some cause, http := status }) with responseBytes := known }
+      = false := by
+  have hget : ∀ r : Record, r.methodType = .stream → r.streamId = none → SchemaOk r = false := by
+    intro r hm hs
+    unfold SchemaOk JsonSchema.Schema.ok
+    have : G.schema.conds.all (F.eval r.get) = false := by
+      simp [VgiVerif.Gen.C34.schema, F.eval, Record.get, hm, hs, MT.str, Atom.ok]
+    rw [this]; simp
+  exact hget _ (by simp [emit, Http.site]) (by simp [emit, Http.amb, nonEmpty])
+
 /-- **one physical line**: whatever a record carries — any exception text, method name, principal …, with any Unicode line
 or paragraph separator, NEL, VT, FF, FS/GS/RS in it — and whatever the formatter shed, the text written for it contains no
 character at which `str.splitlines()` (the shipped validator's reader) or any narrower line reader cuts: every character is
